@@ -196,7 +196,8 @@ Section C06.
     (commit_merge (o_order o) i (c_values C) (view C) (default ch_empty (p_rbvalues P)));
     EPutCfg t
     (C <| c_index := p_rbindex P |> <| c_committed := i |> <| c_inline := v_empty |> <|
-    c_ainline := aview C |>); EPutProp (t, i) (P <| p_commit := Some Done |>)], RDone)
+    c_ainline := aview C |>); EPutProp (t, i) (P <| p_commit := Some Done |>)],
+    requeue_next t P)
     ∧ (∀ k : nat,
     (2 <= k)%nat
     → ∃ C' : config,
